@@ -788,11 +788,22 @@ type c11Script struct {
 	ks    []int
 	kinds string // subset of "EVX" for the * and # forms
 	m, r  int    // # form: m > 0
-	acts  string // the handler calls made in a selected callback, in order: c Consume(), d SetDone(), e SetError(non-nil),
+	leaf  bool       // `L` prefix: this walk runs over a bare leaf root (a *cypher.Variable / pgsql.Identifier), not the case's value
+	next  *c11Script // `A>B`: after this walk, walk B runs with the SAME visitor object (same handler); callbacks are counted per walk
+	acts  string     // the handler calls made in a selected callback, in order: c Consume(), d SetDone(), e SetError(non-nil),
 	//              z SetError(nil); "n" = none. E.g. "zc", "ee", "de" (SetError after SetDone), "dz"
 }
 
-func (s c11Script) String() string { return fmt.Sprintf("%s:%s:%s", s.mode, s.sel, s.acts) }
+func (s c11Script) String() string {
+	t := fmt.Sprintf("%s:%s:%s", s.mode, s.sel, s.acts)
+	if s.leaf {
+		t = "L" + t
+	}
+	if s.next != nil {
+		t += ">" + s.next.String()
+	}
+	return t
+}
 
 // c11Calls performs the script's handler calls on the real handler, in order.
 func (s c11Script) c11Calls(h walk.VisitorHandler) {
@@ -897,22 +908,70 @@ func c11MkScriptS(mode, sel, acts string) (c11Script, bool) {
 
 func c11ParseScriptsFor(tok string, modes ...string) ([]c11Script, bool) {
 	var out []c11Script
-	for _, part := range strings.Split(tok, ",") {
-		f := strings.Split(part, ":")
+	one := func(part string) (c11Script, bool) {
+		leaf := strings.HasPrefix(part, "L")
+		f := strings.Split(strings.TrimPrefix(part, "L"), ":")
 		if len(f) != 3 {
-			return nil, false
+			return c11Script{}, false
 		}
 		okMode := false
 		for _, m := range modes {
 			okMode = okMode || m == f[0]
 		}
 		sc, ok := c11MkScriptS(f[0], f[1], f[2])
-		if !ok || !okMode {
+		sc.leaf = leaf
+		return sc, ok && okMode
+	}
+	for _, part := range strings.Split(tok, ",") {
+		ab := strings.Split(part, ">")
+		if len(ab) > 2 {
 			return nil, false
+		}
+		sc, ok := one(ab[0])
+		if !ok {
+			return nil, false
+		}
+		if len(ab) == 2 {
+			b, okb := one(ab[1])
+			if !okb || b.leaf {
+				return nil, false
+			}
+			sc.next = &b
 		}
 		out = append(out, sc)
 	}
 	return out, true
+}
+
+// c11SeqScripts: sequences of two walks with ONE visitor object for one walker: walk A leaves the handler behind, walk B
+// (over the case's value) must then behave exactly like a walk with a fresh visitor unless A was cancelled / failed, in
+// which case B must make no callback. A: a bare leaf root consumed in Enter / in Exit / in both; the case's value with
+// Consume in every Exit (so also in the ROOT's Exit) / in a random callback / cancelled / failed / nil-error.
+func c11SeqScripts(rng *Rng, mode string, n int) []c11Script {
+	var out []c11Script
+	add := func(a string, b string) {
+		if scs, ok := c11ParseScriptsFor(a+">"+b, mode); ok {
+			out = append(out, scs...)
+		}
+	}
+	never := mode + ":0:n"
+	k := func() string { return strconv.Itoa(1 + rng.Intn(n)) }
+	if n == 0 {
+		return nil
+	}
+	add("L"+mode+":1:c", never)
+	add("L"+mode+":2:c", never)
+	add("L"+mode+":1+2:c", never)
+	add("L"+mode+":1:c", mode+":"+k()+":c")
+	add(mode+":*X:c", never)
+	add(mode+":*EVX:c", never)
+	add(mode+":"+strconv.Itoa(n)+":c", never) // the last callback of a complete walk is the root's Exit
+	add(mode+":"+k()+":c", never)
+	add(mode+":"+k()+":d", never)
+	add(mode+":"+k()+":e", never)
+	add(mode+":"+k()+":cd", never)
+	add(mode+":*EVX:z", mode+":"+k()+":c")
+	return out
 }
 
 func c11ParseScripts(tok string) ([]c11Script, bool) { return c11ParseScriptsFor(tok, "st", "se") }
@@ -989,8 +1048,32 @@ func (s *c11Visitor) Visit(node cypher.SyntaxNode) { s.event("V", node) }
 func (s *c11Visitor) Exit(node cypher.SyntaxNode)  { s.event("X", node) }
 
 // c11RunWalk runs the real walker selected by the script over root with a fresh visitor.
+// c11RunSeq runs script A and then script.next (B) with one shared handler; returns "resA>resB", "logA>logB".
+func c11RunSeq(root any, script c11Script) (res, log string, fired bool) {
+	h := walk.NewCancelableErrorHandler()
+	part := func(sc c11Script, r any) (string, string, bool) {
+		res, vis := c11RunWalkWith(h, r, sc, true)
+		l := "-"
+		if len(vis.log) > 0 {
+			l = strings.Join(vis.log, ",")
+		}
+		return res, l, vis.fired
+	}
+	rootA := root
+	if script.leaf {
+		rootA = &cypher.Variable{Symbol: "a"}
+	}
+	ra, la, fa := part(script, rootA)
+	rb, lb, fb := part(*script.next, root)
+	return ra + ">" + rb, la + ">" + lb, fa || fb
+}
+
 func c11RunWalk(root any, script c11Script, record bool) (res string, vis *c11Visitor) {
-	vis = &c11Visitor{VisitorHandler: walk.NewCancelableErrorHandler(), script: script, record: record}
+	return c11RunWalkWith(walk.NewCancelableErrorHandler(), root, script, record)
+}
+
+func c11RunWalkWith(h walk.VisitorHandler, root any, script c11Script, record bool) (res string, vis *c11Visitor) {
+	vis = &c11Visitor{VisitorHandler: h, script: script, record: record}
 	defer func() {
 		if p := recover(); p != nil {
 			res = "panic"
@@ -1277,6 +1360,7 @@ func c11PickScripts(rng *Rng, root any, extra int, thorough bool, stats *Stats) 
 	for _, mode := range []string{"st", "se"} {
 		n := counts[mode]
 		scripts = append(scripts, c11ScheduleScripts(rng, mode, n, 3, n <= 40 && (thorough || n <= 16))...)
+		scripts = append(scripts, c11SeqScripts(rng, mode, n)...)
 	}
 	if thorough {
 		exhaustive := false
@@ -1474,6 +1558,12 @@ func (r *c11Runner) answer(root any, scripts []c11Script, nilish bool) string {
 
 	var walks strings.Builder
 	for _, sc := range scripts {
+		if sc.next != nil {
+			res, log, _ := c11RunSeq(root, sc)
+			st.Inc("walk.seq")
+			fmt.Fprintf(&walks, " | W %s %s %s", sc.String(), res, log)
+			continue
+		}
 		res, vis := c11RunWalk(root, sc, true)
 		st.Inc("walk." + res)
 		if vis.fired {
